@@ -201,8 +201,14 @@ def run(rep):
                 nb += 1
                 flag = fields["1"]
                 chain = builder_chain(fields["0"])
-                ci = [c for c in chain if c[0] == "case_insensitive"]
                 src = show(fields["0"])
+                if not chain and peel(fields["0"]).get("k") == "Var" and fname != "optimiser::rewrite_search":
+                    # the matcher was built in the scrutinee of an enclosing `match builder.build() { Ok(x) => .. }`
+                    vid = peel(fields["0"])["id"]
+                    for e in q.context(path, n):
+                        if e[0] == "arm" and any(b[1] == vid for b in facts.pat_binds(e[1])) and "Builder::build" in show(e[2]):
+                            chain = builder_chain(e[2])
+                ci = [c for c in chain if c[0] == "case_insensitive"]
                 if ci:
                     barg = ci[0][1]["args"][1]
                     ok = (lit(barg) is not None and lit(barg) == lit(flag)) or (q.var_id(barg) is not None and q.var_id(barg) == q.var_id(flag))
